@@ -60,7 +60,21 @@ def gen_case(rng, tier, index):
         kinds=("root", "sub", "sub", "sub", "multi"),
         meta_modes=("none", "some"), hashes=hashes, subdirs=SUBDIRS,
         splits=rng.choice([None, ["train"], ["train"]]), max_writers=3)
+    aligned = 0
+    if rng.random() < 0.07:
+        # shard files whose size is EXACTLY k x 128 KiB (the read block of the
+        # digest loop): uncompressed npz, one example per shard, payload
+        # length calibrated at run time
+        aligned = rng.choice([1, 1, 2])
+        st = hist["structure"]
+        st.update(fmt="npz", compression="", eps=1, attrs=[
+            {"name": "id", "dtype": "int64", "shape": []},
+            {"name": "p0", "dtype": "uint8", "shape": [aligned * KIB128 - 900]}])
+        split0 = hist["splits"][0]
+        hist["sessions"] = [{"kind": "root", "reopen": False, "writes": [
+            {"split": split0, "id": 1}, {"split": split0, "id": 2}]}]
     case = C.base_case(rng, hist)
+    case["aligned"] = aligned
     case["fault_seed"] = rng.getrandbits(32)
     # two threads verify the (untouched) dataset at the same time, pre-empted
     # at source-line granularity inside the digest loop
@@ -68,6 +82,35 @@ def gen_case(rng, tier, index):
     case["exhaustive"] = tier == "thorough" and rng.random() < 0.5
     case["samples_per_file"] = 6 if tier == "quick" else 24
     return case
+
+
+KIB128 = 128 * 1024
+
+
+def calibrate_aligned(hist: dict, k: int) -> bool:
+    """Adjust the payload length so that every shard file of the history is
+    exactly k * 128 KiB long.  True when it worked."""
+    attr = hist["structure"]["attrs"][1]
+    probe = dict(hist, sessions=[dict(hist["sessions"][0],
+                                      writes=hist["sessions"][0]["writes"][:1])])
+    for _ in range(4):
+        scratch = fslayer.new_scratch("calib")
+        try:
+            root = os.path.join(scratch, "root")
+            with dsgen.seams(hist["name_seed"], "monotone"):
+                hr = dsgen.HistoryRunner(probe, root, pool_factory=None)
+                hr.create()
+                hr.run_session(0)
+            _, _, shards = dsgen.walk_tree(root)
+            size = os.path.getsize(os.path.join(root, shards[0]["path"]))
+        finally:
+            shutil.rmtree(scratch, ignore_errors=True)
+        if size == k * KIB128:
+            return True
+        attr["shape"] = [attr["shape"][0] + k * KIB128 - size]
+        if attr["shape"][0] <= 0:
+            return False
+    return False
 
 
 class Versions:
@@ -99,6 +142,11 @@ def run_case(case):
     probes = collections.Counter()
     faults = collections.Counter()
     out = {"ok": True, "vclass": None, "detail": "", "key": {}}
+    if case.get("aligned"):
+        if calibrate_aligned(hist, case["aligned"]):
+            probes["shard_size_exact_multiple_of_read_block"] += 1
+        else:
+            probes["block_alignment_failed"] += 1
     scratch = fslayer.new_scratch("integ")
     root = os.path.join(scratch, "outer", "root")
     os.makedirs(os.path.dirname(root))
@@ -427,7 +475,8 @@ def reach(agg):
                  "rollback"):
         if not f.get(name):
             need.append(f"fault {name} never injected")
-    for name in ("two_concurrent_checks", "two_concurrent_checks_damaged",
+    for name in ("shard_size_exact_multiple_of_read_block",
+                 "two_concurrent_checks", "two_concurrent_checks_damaged",
                  "tree_depth_1", "tree_depth_3",
                  "target_list_level_3",
                  "target_shard_level_3", "algorithms_13"):
